@@ -89,7 +89,7 @@ def scan(facts):
                             rp = rv['place']
                             own2 = isinstance(rp.get('l'), int) and rp['l'] > nargs and not any(x.get('k') == 'deref' for x in rp.get('p') or [])
                             wr(bfn, rp, own2)
-                        if rv.get('k') in ('addr_of', 'raw') and (rv.get('place') or {}).get('p'):
+                        if rv.get('k') in ('addr_of', 'raw', 'rawptr') and (rv.get('place') or {}).get('p'):
                             wr(bfn, rv['place'], False)
                         if rv.get('k') == 'aggregate' and rv.get('agg') == 'adt':
                             if fn.get('derived') and fn['path'].endswith('as core::clone::Clone>::clone'):
